@@ -16,6 +16,11 @@ CHECKS = {
         text="Exploration: generated well-typed expressions biased to the five optimiser rewrites (constant arithmetic at any depth incl. call arguments and overflow, literal arrays, membership in literal arrays/ranges with left operands of every admitted static type, constant ranges of size 0/1/descending/1e3/around 1e6, pure calls under drawn ConstExpr marks incl. variadic nil arguments, operator overloads on built-in types) plus a control group; the three programs must all fail or all return equal values on each environment value; the optimiser may reject only constant integer division/modulo by zero; a ConstExpr mark may only move a failing constant call to compile time.",
         note="Trusted: Equiv, the constant evaluator core/constfold.go, purity of the harness functions. Budget failures on one side only are incomparable (counted). Open findings F09 (in-range rewrite ignores operand type) and F26 (int type claimed for arithmetic with a dynamic operand) are excluded by construction and replayed.",
         ref="4/C02"),
+    "C03": dict(
+        technique="property-based testing (rapid): (sound) accepted generated programs are run and each failure is classified by the independent reference evaluator, each success compared with the type checker.Check reported; (reject) single-fault mutation of well-typed generated programs at drawn positions must be rejected by Compile",
+        text="Exploration. Soundness: programs accepted against Env(core.Env{}) under {none, AsBool, AsInt64, AsFloat64} and optimiser on/off are run on generated values; where the library's own checker typed every operand concretely, a success must have exactly the reported dynamic type (bool/int64/float64 under a directive) and a failure must be one the reference evaluator also produces with class index, divzero, nil, pattern, budget or envpanic. Rejection: 30 fault templates covering the documented rules (unknown name/field/method/function, mismatched operands of every operator family, wrong arity, wrong argument type incl. numeric kind, non-boolean condition/predicate, non-collection builtin argument) substituted at any position (argument, closure body, branch, slice bound incl. `[:x]`, index, array element, map value) must make Compile fail with the optimiser on and off.",
+        note="Trusted: the reference evaluator's failure classes; a second classifier on the error text demotes disagreements to 'inconclusive'. Open findings: F27 (static type of filter/map results and folded literal arrays), F19 (integer literals / arithmetic in call arguments are re-typed) - their regions are excluded and replayed.",
+        ref="4/C03"),
     "C05": dict(
         technique="property-based testing (rapid) + deterministic enumeration of oversized programs; validity predicate: independent bytecode decoder with operand/constant-kind/jump-target checks and an exact stack/scope-depth dataflow over the control-flow graph; run-time end-state check on a caller-owned VM; reference evaluator for large programs",
         text="Exploration: every generated program (C01/C02 generators, typed/untyped, optimiser on/off, cast directives) is decoded by an opcode table written independently of the VM (cross-checked against Disassemble), its operands, constant kinds and jump targets are checked, and its stack/scope depth is propagated along every control-flow path (never below what an instruction pops, equal at joins, one value and no scope at the end; programs with run-time sized arrays from map/filter are exempt from the depth dataflow and counted); each is then run on a caller-owned VM whose stack must be empty and scope closed after success, and no failure may carry Go's empty-stack signature. Eight constructions with branches / loop bodies beyond 64 KiB and constant pools beyond 65 535 entries must be refused at compile time or verify and agree with the reference evaluator.",
